@@ -306,7 +306,7 @@ func firstLine(s string) string {
 func init() {
 	bfs.Register("c18", func() bfs.Scenario { return build() })
 	reg.Register(reg.Check{Property: "C18", Level: "model_checking", Run: func(run *ev.Run) {
-		depth, deadline := 8, 50*time.Second
+		depth, deadline := 12, 50*time.Second // normally reaches the fixpoint (depth 10) in ~25 s
 		if ev.Tier() == "thorough" {
 			depth, deadline = 16, 14*time.Minute // the state space is finite (sessions, horizon): the frontier empties around depth 12
 		}
